@@ -23,6 +23,25 @@ def _where_pred(node: ast.AST) -> Optional[ast.AST]:
     return None
 
 
+class _StripNanInf(ast.NodeTransformer):
+    """np.nan_to_num(X, nan=np.inf) / np.where(np.isnan(X), np.inf, X) -> X (the NaN->inf conversion is decided by C07.NAN-INF)."""
+
+    def visit_Call(self, node: ast.Call):
+        self.generic_visit(node)
+        name = dotted(node.func) or ""
+        if name in ("np.nan_to_num", "numpy.nan_to_num") and node.args and any(k.arg == "nan" and (dotted(k.value) or "") in ("np.inf", "numpy.inf") for k in node.keywords):
+            return node.args[0]
+        if name in ("np.where", "numpy.where") and len(node.args) == 3 and (dotted(node.args[1]) or "") in ("np.inf", "numpy.inf") and canon(node.args[0]) == f"np.isnan({canon(node.args[2])})":
+            return node.args[2]
+        return node
+
+
+def _strip_nan_inf(node: ast.AST) -> ast.AST:
+    import copy
+
+    return ast.fix_missing_locations(_StripNanInf().visit(copy.deepcopy(node)))
+
+
 def _e(text: str) -> ast.AST:
     return ast.parse(text, mode="eval").body
 
@@ -134,12 +153,35 @@ def run(ctx: Ctx) -> None:
     if thr_stmt is None:
         ctx.ob("C07.THRESHOLD", V, lp, "invalid = |dR + dL| > threshold", False, detail="the threshold comparison vanished")
     else:
-        ex = defs.expand(thr_stmt.value, thr_stmt, depth=4, stop=("col_left", qname, inside_stmt.targets[0].id))
+        ex = _strip_nan_inf(defs.expand(thr_stmt.value, thr_stmt, depth=4, stop=("col_left", qname, inside_stmt.targets[0].id)))
         insel = inside_stmt.targets[0].id
         lhs = f"abs({R}['disparity_map'].data[({row}, {qname}[{insel}])] + {L}['disparity_map'].data[({row}, col_left[{insel}])])"
         want = boolform(_e(f"abs({R}['disparity_map'].data[{row}, {qname}[{insel}]] + {L}['disparity_map'].data[{row}, col_left[{insel}]]) > self._threshold"))
         d = equivalent(boolform(ex), want)
         ctx.ob("C07.THRESHOLD", V, thr_stmt, f"{src(thr_stmt)[:120]}", d is None, expected=f"abs(dR[{row}, q] + dL[{row}, p]) > self._threshold (strict)", detail=f"a pixel is inconsistent iff |dL(p) + dR(q)| > threshold; found `{canon(ex)[:160]}`")
+    # --- NAN-INF: a NaN disparity on either side must count as inconsistent (|NaN| > t is False, |inf| > t is True)
+    if thr_stmt is not None:
+        operands = []
+        cmp_left = thr_stmt.value.left
+        if isinstance(cmp_left, ast.Call) and (dotted(cmp_left.func) or "") in ("np.abs", "abs", "numpy.abs") and cmp_left.args and isinstance(cmp_left.args[0], ast.BinOp) and isinstance(cmp_left.args[0].op, ast.Add):
+            operands = [x for x in (cmp_left.args[0].left, cmp_left.args[0].right) if isinstance(x, ast.Name)]
+        if len(operands) != 2:
+            raise AnalysisError("disparity_checking: |a + b| of the threshold test is not a sum of two named arrays")
+        nconv = 0
+        for op in operands:
+            x = op.id
+            conv = []
+            for st in walk_no_nested(lp):
+                if not isinstance(st, ast.Assign) or st.lineno > thr_stmt.lineno:
+                    continue
+                t = st.targets[0]
+                if isinstance(t, ast.Subscript) and canon(t.value) == x and canon(t.slice) == f"np.isnan({x})" and (dotted(st.value) or "") in ("np.inf", "numpy.inf"):
+                    conv.append(st)
+                elif isinstance(t, ast.Name) and t.id == x and canon(st.value) in (f"np.nan_to_num({x}, nan=np.inf)", f"np.where(np.isnan({x}), np.inf, {x})"):
+                    conv.append(st)
+            nconv += len(conv)
+            ctx.ob("C07.NAN-INF", V, conv[0] if conv else thr_stmt, f"`{x}`: NaN converted to inf before the threshold test ({src(conv[0])[:70] if conv else 'missing'})", len(conv) >= 1, expected=f"{x}[np.isnan({x})] = np.inf", detail="a correspondent (or a pixel) holding a NaN disparity must be flagged: abs(NaN) > threshold is False, so without the conversion the pixel stays valid with a NaN distance in the confidence band")
+        ctx.floor("C07.NAN-INF", len(operands), 2)
     init = tree.func(V, "CrossCheckingAccurate.__init__")
     th = [st for st in walk_no_nested(init) if isinstance(st, ast.Assign) and canon(st.targets[0]) == "self._threshold"]
     ctx.ob("C07.THRESHOLD", V, th[0] if th else init, f"self._threshold = {canon(th[0].value) if th else '?'}", bool(th) and canon(th[0].value) == "self.cfg['cross_checking_threshold']", expected="self.cfg['cross_checking_threshold']")
@@ -148,7 +190,7 @@ def run(ctx: Ctx) -> None:
     cm = [st for st in walk_no_nested(lp) if isinstance(st, ast.Assign) and isinstance(st.targets[0], ast.Subscript) and canon(st.targets[0].value) == "conf_measure"]
     okc = False
     if cm and thr_stmt is not None:
-        okc = canon(defs.expand(cm[0].value, cm[0], depth=4, stop=("col_left", qname, inside_stmt.targets[0].id))) == canon(defs.expand(thr_stmt.value.left, thr_stmt, depth=4, stop=("col_left", qname, inside_stmt.targets[0].id))) and canon(cm[0].targets[0].slice) == f"({row}, col_left[{inside_stmt.targets[0].id}])"
+        okc = canon(_strip_nan_inf(defs.expand(cm[0].value, cm[0], depth=4, stop=("col_left", qname, inside_stmt.targets[0].id)))) == canon(_strip_nan_inf(defs.expand(thr_stmt.value.left, thr_stmt, depth=4, stop=("col_left", qname, inside_stmt.targets[0].id)))) and canon(cm[0].targets[0].slice) == f"({row}, col_left[{inside_stmt.targets[0].id}])"
     ctx.ob("C07.BAND", V, cm[0] if cm else lp, f"{src(cm[0])[:130] if cm else 'conf_measure store'}", okc, detail="the confidence band must hold |dL(p)+dR(q)| at the pixel p that was checked", expected=f"conf_measure[{row}, col_left[inside]] = abs(right_disp + left_disp)")
     ac = [c for c in calls_in(fn) if (dotted(c.func) or "").endswith("allocate_confidence_map")]
     okb = len(ac) == 1 and isinstance(ac[0].args[0], ast.Constant) and ac[0].args[0].value == "left_right_consistency" and [canon(a) for a in ac[0].args[1:3]] == ["conf_measure", L] and not enclosing_loops(ac[0])
@@ -255,6 +297,8 @@ SPEC = PropSpec(
 )
 
 MUTANTS = [
+    {"id": "nan-to-inf-result-discarded", "file": V, "old": "            right_disp[np.isnan(right_disp)] = np.inf\n", "new": "            np.nan_to_num(right_disp, nan=np.inf)\n"},
+    {"id": "eq-nan-to-inf-by-nan_to_num-assigned", "kind": "equiv", "file": V, "old": "            left_disp[np.isnan(left_disp)] = np.inf\n", "new": "            left_disp = np.nan_to_num(left_disp, nan=np.inf)\n"},
     {"id": "outside-and", "file": V, "old": "outside_right = np.where((col_right < 0) | (col_right >= nb_col))", "new": "outside_right = np.where((col_right < 0) & (col_right >= nb_col))"},
     {"id": "threshold-ge", "file": V, "old": "invalid = np.abs(right_disp + left_disp) > self._threshold", "new": "invalid = np.abs(right_disp + left_disp) >= self._threshold"},
     {"id": "rint-to-floor", "file": V, "old": "col_right = np.rint(col_right).astype(int)", "new": "col_right = np.floor(col_right).astype(int)"},
